@@ -24,6 +24,10 @@ SPEC and KEY are the encodings documented in lean/drivers/C15.lean; a context le
 cannot encode and whose str() is s; ["list"|"tuple"|"set", [..]] is a container as a context value (sent to the model as
 ["obj", str(container)]).  A specification may carry "sub": true (the string / list / tuple is an instance of a
 subclass: _Str, _L, a named tuple).  Data of a value: null / bool / int / string / {"tuple":true} / {"k":KIND}.
+A "fn" / "selctx" specification may carry "as": the kind of Python object the callable is (_AS_KINDS: a function, an
+instance with __call__, a bound method, a functools.partial object, a callable instance of a subclass of str / list /
+tuple, a lena Selector instance; {"cls": NAME}: a class called as a converter / validator - predicates only; "builtin":
+a builtin function or a bound method of a builtin object).
 A select case also builds a twin selector FIRST from the same specification object with the other raise_on_error.
 Only the public interface of lena objects is used (with "top":"filter" the per-value result is what Filter.fill_into does
 with the value); the private module-level names _GroupBy, _split_key, _startswith are looked up defensively (see ASSUMPTIONS).
@@ -41,9 +45,10 @@ from harness.common import exc_name, jdump
 
 PID = "C15"
 TITLE = "Selectors evaluate compositionally; GroupBy partitions by the selected context"
-LEAN_MODULES = ["LenaModel.Props.C15", "LenaModel.Props.C15Key"]
+LEAN_MODULES = ["LenaModel.Props.C15", "LenaModel.Props.C15Key", "LenaModel.Props.C15Pred"]
 LEAN_SOURCES = ["LenaModel/Model/C15.lean", "LenaModel/Model/C15Spec.lean", "LenaModel/Model/C15Key.lean",
-                "LenaModel/Lemmas/C15.lean", "LenaModel/Props/C15.lean", "LenaModel/Props/C15Key.lean"]
+                "LenaModel/Model/C15Pred.lean", "LenaModel/Lemmas/C15.lean", "LenaModel/Props/C15.lean",
+                "LenaModel/Props/C15Key.lean", "LenaModel/Props/C15Pred.lean"]
 DRIVER = "drivers/C15.lean"
 # the theorems that carry the property: each is about the transcribed model (Model/C15.lean)
 THEOREMS = [
@@ -56,6 +61,9 @@ THEOREMS = [
     "Lena.C15.select_context_absent_false",
     "Lena.C15.select_context_present",
     "Lena.C15.select_context_pred_raises",
+    "Lena.C15.select_context_applies_any_callable",
+    "Lena.C15.select_context_bool_predicate",
+    "Lena.C15.selector_callable_dispatch",
     "Lena.C15.class_selector_tests_type",
     "Lena.C15.filter_stops_at_first_error",
     "Lena.C15.filter_keeps_selected",
@@ -94,6 +102,7 @@ AUX_THEOREMS = [
     "Lena.C15.not_of_absorbing",
     "Lena.C15.not_not_sem",
     "Lena.C15.select_context_bad_key",
+    "Lena.C15.select_context_kind_irrelevant",
     "Lena.C15.sel_eq_polarity",
     "Lena.C15.mem_prefixesDesc",
     "Lena.C15.polarity_spec",
@@ -131,6 +140,12 @@ TRUSTED = [
     "exercises them (a twin selector built first from the same specification object with the other raise_on_error; "
     "flows whose values share context dictionaries updated in place; named tuples, list and str subclasses as "
     "specifications and as group_by / merge) and the oracle judges the results",
+    "a callable is a function of the model (Val -> Res, Item -> Res) plus a tag saying what else the Python object is "
+    "(CallKind of Model/C15Pred.lean: a class, a callable string / list / tuple, a selector instance, or nothing else); "
+    "that a builtin, a bound method, a functools.partial object and an instance with __call__ are all 'plain' callables, "
+    "and the tables of the driver for bool / int / float / str / dict / list / len / abs / tuple.__contains__ / a user "
+    "validator class on the generated sub-contexts (pyBool, pyInt, ... ; integer literals without '+', blanks and "
+    "underscores, the float literals '1.5' and '1e3'), are validated by the correspondence run only",
     "the isinstance table of the model (Data x PyClass, incl. numbers.Number/Integral, collections.abc.Mapping/"
     "Sequence/Hashable, user classes with a subclass) against Python's isinstance on one instance per class",
     "JSON line protocol encoders (harness/props/c15.py, drivers/C15.lean)",
@@ -140,6 +155,14 @@ ASSUMPTIONS = [
     "statement speaks about (list = OR, tuple = AND, Not, Filter, RunIf, SelectContext inside them) uses only the truth "
     "value; that Selector.__call__ itself hands back the raw object is not modelled (the harness compares truth values; "
     "callables returning 5, 0, '', 'x', None and the data itself are generated)",
+    "'a callable is applied' / 'SelectContext applies its predicate': a callable is ANY object Python's callable() accepts - "
+    "functions, lambdas, builtins (len, abs), bound methods, functools.partial objects, instances with __call__, lena "
+    "selector instances; as the predicate of a SelectContext also classes (bool, int, float, str, dict, list, a user "
+    "class used as a validator: the class is CALLED on the sub-context, it is not an isinstance test) and callable "
+    "instances of subclasses of str / list / tuple (seed C15-I).  Given to Selector itself, a class tests the type (the "
+    "statement), and an object that is a callable AND a string / list / tuple is outside the oracle: the statement "
+    "names a meaning for each of the two and no precedence; lena applies it (callable is tested before str), which the "
+    "model transcribes (Callable.asSpec) and the correspondence compares",
     "exceptions are instances of Exception (any class: ZeroDivisionError, TypeError, AttributeError, ValueError, "
     "RuntimeError, AssertionError, KeyError, OSError, LenaKeyError, a user-defined class, StopIteration - with its "
     "conversion to RuntimeError inside the generator expressions of And/Or/Filter.run and in RunIf.run, PEP 479, which the "
@@ -187,6 +210,12 @@ RULE = ("Keys 'a', 'ab' (one a string prefix of the other), 'b'; every context b
         "KeyError, a user-defined class, StopIteration; 6 results that are no bools) bare, in containers, under Not, in "
         "instances; all Not-chains of depth <= 3 x all raise_on_error combinations over 9 inner selectors; SelectContext "
         "over 19 key forms x 13 predicates (incl. predicates raising LenaKeyError / LenaTypeError / LenaValueError); all "
+        "predicates of every kind of callable: the classes bool / int / float / str / dict / list and a user validator class, "
+        "the builtins len / abs, a bound method of a tuple x 7 key forms x both raise_on_error x 16 values whose sub-contexts are "
+        "numbers, flags, strings (integer / float literals, ''), None, dictionaries, an object, or absent - directly, in a list, "
+        "in a (named) tuple, under Not; the 13 function predicates as instance with __call__ / bound method / partial / callable "
+        "str, list, tuple subclass / lena Selector x 3 keys; the 23 leaf functions as the same kinds of object + builtin len, "
+        "bare / in a list / in a tuple / under Not / in Filter sequences / in RunIf; the random specifications draw them too; "
         "18 classes (concrete, user-defined with a subclass, numbers.Number/Integral, collections.abc.Mapping/Sequence/"
         "Hashable) x data of 19 kinds (incl. float, Fraction, dict, list, user subclasses of int and str, a named tuple), as "
         "leaf / in a list / in a named tuple / under Not; strings, lists, tuples, And/Or arguments that are instances of "
@@ -395,12 +424,136 @@ def _fn_table():
         "xstr": lambda v: "x",
         "none": lambda v: None,
         "data": lambda v: _data(v),
+        # a builtin function, applied to the value as it is (a (data, context) pair has length 2)
+        "b_len": len,
     }
+
+
+# --- callables of every kind.  "a callable is applied", "SelectContext applies its predicate": the callable may be a
+# function or a lambda, and just as well an instance with __call__, a bound method, a functools.partial object, a builtin,
+# a class (a predicate only: as a selector a class tests the type), an object that is callable AND a string / list / tuple
+
+class _CallInst(object):
+    """an instance of a class with __call__"""
+
+    def __init__(self, f):
+        self.f = f
+
+    def __call__(self, x):
+        return self.f(x)
+
+
+class _Holder(object):
+    """`_Holder(f).check` is a bound method"""
+
+    def __init__(self, f):
+        self.f = f
+
+    def check(self, x):
+        return self.f(x)
+
+
+def _apply(f, x):
+    return f(x)
+
+
+class _CallStr(str):
+    """a string that can be called (its characters name a key that the generated contexts have)"""
+
+    def __new__(cls, s, f):
+        o = str.__new__(cls, s)
+        o.f = f
+        return o
+
+    def __call__(self, x):
+        return self.f(x)
+
+
+class _CallList(list):
+    """a list that can be called"""
+
+    def __init__(self, items, f):
+        list.__init__(self, items)
+        self.f = f
+
+    def __call__(self, x):
+        return self.f(x)
+
+
+class _CallTuple(tuple):
+    """a tuple that can be called"""
+
+    def __new__(cls, items, f):
+        o = tuple.__new__(cls, items)
+        o.f = f
+        return o
+
+    def __call__(self, x):
+        return self.f(x)
+
+
+class _Positive(object):
+    """a user class used as a validator: `SelectContext("energy", _Positive)`"""
+
+    def __init__(self, x):
+        if not x > 0:
+            raise ValueError("not positive")
+
+
+# the kinds a function of the tables can be wrapped into ("selector": a lena Selector instance - predicates only, as a
+# leaf it is the specification {"t": "sel"})
+_AS_PLAIN = ["instance", "method", "partial"]
+_AS_AMBIGUOUS = ["callstr", "calllist", "calltuple"]
+_AS_KINDS = _AS_PLAIN + _AS_AMBIGUOUS
+
+
+def _as_kind(f, kind):
+    """the function f as a callable object of another kind"""
+    if kind is None or kind in ("function", "builtin") or isinstance(kind, dict):
+        return f
+    if kind == "instance":
+        return _CallInst(f)
+    if kind == "method":
+        return _Holder(f).check
+    if kind == "partial":
+        return functools.partial(_apply, f)
+    if kind == "callstr":
+        return _CallStr("a", f)
+    if kind == "calllist":
+        return _CallList(["a", lambda v: True], f)
+    if kind == "calltuple":
+        return _CallTuple(("a", lambda v: True), f)
+    if kind == "selector":
+        import lena.flow
+        return lena.flow.Selector(f)
+    raise ValueError(kind)
+
+
+def _fn_obj(spec):
+    """the Python callable of a {"t": "fn"} specification"""
+    return _as_kind(_fn_table()[spec["f"]], spec.get("as"))
+
+
+def _pred_obj(spec):
+    """the Python predicate of a {"t": "selctx"} specification"""
+    return _as_kind(_pred_table()[spec["pred"]], spec.get("as"))
+
+
+# classes and builtins as predicates: name -> (the callable, its "as")
+_PRED_BUILTINS = {
+    "c_bool": (bool, {"cls": "bool"}), "c_int": (int, {"cls": "int"}), "c_float": (float, {"cls": "float"}),
+    "c_str": (str, {"cls": "str"}), "c_dict": (dict, {"cls": "dict"}), "c_list": (list, {"cls": "list"}),
+    "c_pos": (_Positive, {"cls": "User"}), "b_len": (len, "builtin"), "b_abs": (abs, "builtin"),
+    "m_in": ((1, "ab").__contains__, "builtin"),
+}
+# these look INSIDE a list / tuple / set found in a context (the model knows such a value by its str() only): they are
+# generated with values whose contexts hold no containers
+_PREDS_INSIDE = ("c_int", "c_float", "c_dict", "c_list", "b_len")
 
 
 def _pred_table():
     import lena.core
-    return {
+    return dict({k: v[0] for k, v in _PRED_BUILTINS.items()}, **{
         # lena's own exception classes: the ones SelectContext meets when it looks up its key
         "raise_lke": raise_(lena.core.LenaKeyError),
         "raise_lte": raise_(lena.core.LenaTypeError),
@@ -415,7 +568,7 @@ def _pred_table():
         "raise_attr": lambda sc: sc.no_such_attribute,
         "raise_custom": raise_(_Custom),
         "raise_stop": raise_(StopIteration),
-    }
+    })
 
 
 _CLS = {"object": object, "int": int, "bool": bool, "str": str, "tuple": tuple, "float": float, "dict": dict,
@@ -475,7 +628,7 @@ def _build1(spec, memo):
     if t == "cls":
         return _CLS[spec["c"]]
     if t == "fn":
-        return _fn_table()[spec["f"]]
+        return _fn_obj(spec)
     if t == "list":
         return _L(_build(s) for s in spec["l"]) if sub else [_build(s) for s in spec["l"]]
     if t == "tuple":
@@ -491,7 +644,7 @@ def _build1(spec, memo):
         items = [_build(s) for s in spec["l"]]
         return lena.flow.Or(_L(items) if sub else items, raise_on_error=spec["roe"])
     if t == "selctx":
-        return lena.flow.SelectContext(_build_key(spec["key"]), _pred_table()[spec["pred"]], raise_on_error=spec["roe"])
+        return lena.flow.SelectContext(_build_key(spec["key"]), _pred_obj(spec), raise_on_error=spec["roe"])
     if t == "bad":
         return 5
     raise ValueError(t)
@@ -622,7 +775,7 @@ _LEAVES_EXC = [_F(n) for n in ("raise_attr", "raise_val", "raise_rt", "raise_ass
                                "raise_stop", "raise_lte", "raise_lve")]
 _LEAVES_VAL = [_F(n) for n in ("five", "zero", "empty", "xstr", "none", "data")]
 _FNS = ["true", "false", "raise_zde", "raise_lke", "raise_lte", "raise_lve", "pos", "inv", "has_ctx", "raise_attr", "raise_val", "raise_rt",
-        "raise_assert", "raise_custom", "raise_key", "raise_os", "raise_stop", "five", "zero", "empty", "xstr", "none", "data"]
+        "raise_assert", "raise_custom", "raise_key", "raise_os", "raise_stop", "five", "zero", "empty", "xstr", "none", "data", "b_len"]
 
 _KEY_FORMS = ["a", "a.ab", "ab", "", "a.ab.a", "ab.a", ["a"], ["a", "ab"], [], "a..ab", "c",
               {"dict": ["a"], "tail": "stop"}, {"dict": ["a"], "tail": {"key": "ab"}}, {"dict": ["a", "ab"], "tail": "stop"},
@@ -630,6 +783,63 @@ _KEY_FORMS = ["a", "a.ab", "ab", "", "a.ab.a", "ab.a", ["a"], ["a", "ab"], [], "
               {"dict": ["a"], "tail": {"key": None}}, ["a", 5]]
 _PREDS = ["true", "false", "raise_zde", "isdict", "pos", "eq1", "ident", "raise_attr", "raise_custom", "raise_stop",
           "raise_lke", "raise_lte", "raise_lve"]
+
+
+_NEW_PREDS = sorted(_PRED_BUILTINS)
+
+
+def _selctx(key, pred, roe, kind=None):
+    """a SelectContext specification; a class / builtin predicate says what it is, another one may be given a kind"""
+    s = {"t": "selctx", "key": key, "pred": pred, "roe": roe}
+    if pred in _PRED_BUILTINS:
+        s["as"] = _PRED_BUILTINS[pred][1]
+    elif kind:
+        s["as"] = kind
+    return s
+
+
+# values for the predicates of every kind: sub-contexts that are numbers, flags, strings (integer and float literals,
+# the empty string), None, dictionaries (empty and not), an object; absent ones; no containers (see _PREDS_INSIDE)
+_PVALUES = [
+    {"d": 1, "c": {K1: 1, K2: "1"}},
+    {"d": 2, "c": {K1: 0, K2: ""}, "o": 1},
+    {"d": 3, "c": {K1: True, K2: "ab"}},
+    {"d": "s", "c": {K1: {K2: 1}, K2: None}, "o": 2},
+    {"d": None, "c": {K1: {K2: "1e3"}, K2: 2}},
+    {"d": 0, "c": {K1: {}, K2: False}},
+    {"d": True, "c": {K1: "1.5", K2: {K1: 1}}, "o": 1},
+    {"d": {"k": "float"}, "c": {K1: None}},
+    {"d": 4, "c": {K1: _U, K2: -1}},
+    {"d": 5, "c": {K1: {K2: {}}}},
+    {"d": 6, "c": {}},
+    {"d": 7, "c": None},
+    {"d": {"tuple": True}, "c": {K1: -2, K2: "0"}, "o": 2},
+    {"d": "", "c": {K1: {K2: 0, K1: "ab"}, K2: "-3"}},
+    {"d": 8, "c": {K1: {K2: ""}, K2: 1}},
+    {"d": 9, "c": {K1: {K2: True}, K2: {}}},
+]
+
+
+def _no_containers(c):
+    """the JSON context with every list / tuple / set value replaced by its first item"""
+    if isinstance(c, dict):
+        return {k: _no_containers(v) for k, v in c.items()}
+    if isinstance(c, list) and c and c[0] in _CONTAINER_LEAVES:
+        return c[1][0]
+    return c
+
+
+def _looks_inside(s):
+    """does the specification hold a predicate that looks inside a container found in a context?"""
+    if s["t"] == "selctx":
+        return s["pred"] in _PREDS_INSIDE
+    return any(_looks_inside(x) for x in list(s.get("l", [])) + ([s["s"]] if isinstance(s.get("s"), dict) else []))
+
+
+def _vals_for(vals, *specs):
+    if any(_looks_inside(s) for s in specs):
+        return [dict(v, c=_no_containers(v["c"])) for v in vals]
+    return vals
 
 
 def _level(items, with_not=True):
@@ -668,7 +878,19 @@ def _rand_ctx(rng, keys, depth, leaves=(1, 2, None, True, "ab", 0, "1")):
 
 def _rand_selctx(rng):
     key = rng.choice(_KEY_FORMS + ["a", "a.ab", "ab", ["ab", "a"]])
-    return {"t": "selctx", "key": key, "pred": rng.choice(_PREDS), "roe": rng.random() < 0.5}
+    # the predicate: a function, a class / builtin, or a function as a callable object of another kind
+    r = rng.random()
+    if r < 0.3:
+        return _selctx(key, rng.choice(_NEW_PREDS), rng.random() < 0.5)
+    kind = rng.choice(_AS_KINDS + ["selector"]) if r < 0.55 else None
+    return _selctx(key, rng.choice(_PREDS), rng.random() < 0.5, kind)
+
+
+def _rand_fn(rng):
+    f = _F(rng.choice(_FNS))
+    if rng.random() < 0.3:
+        f["as"] = rng.choice(_AS_KINDS) if f["f"] != "b_len" else "builtin"
+    return f
 
 
 def _sub(rng, spec):
@@ -688,7 +910,7 @@ def _rand_spec(rng, depth):
         if k < 0.5:
             return _C(rng.choice(list(_CLS)))
         if k < 0.9:
-            return _F(rng.choice(_FNS))
+            return _rand_fn(rng)
         if k < 0.97:
             return _rand_selctx(rng)
         return {"t": "bad"}
@@ -922,11 +1144,63 @@ def _gen_select_classes(ctx):
         yield {"op": "runif", "spec": s, "seq": "dup", "values": _rot(_VALUES, i)[:_NV]}
 
 
+def _gen_select_callables(ctx):
+    """any callable is a predicate of SelectContext / a leaf of Selector: classes (bool, int, float, str, dict, list, a
+    user class), builtins, bound methods, partial objects, instances with __call__, callable strings / lists / tuples,
+    lena selectors - on every kind of sub-context, present and absent, both raise_on_error settings, directly and
+    inside other selectors"""
+    keys = ["a", "a.ab", "ab", "", ["a", "ab"], {"dict": ["a"], "tail": "stop"}, "c"]
+    i = 0
+    for pred in _NEW_PREDS:
+        for key in keys:
+            for roe in (True, False):
+                i += 1
+                s = _selctx(key, pred, roe)
+                vals = _rot(_PVALUES, i)
+                yield {"op": "select", "spec": s, "roe": True, "top": "filter", "values": vals}
+                yield {"op": "select", "spec": s, "roe": not roe, "top": "selector", "values": vals}
+                if key in ("a", "a.ab", "ab"):
+                    yield {"op": "select", "spec": {"t": "list", "l": [_F("false"), s]}, "roe": not roe, "top": "selector",
+                           "values": vals}
+                    yield {"op": "select", "spec": {"t": "not", "s": s, "roe": roe}, "roe": True, "top": "filter", "values": vals}
+                    yield {"op": "select", "spec": {"t": "tuple", "l": [s, _C("int")], "sub": i % 2 == 0}, "roe": roe,
+                           "top": "selector", "values": vals}
+    # the functions of the tables as callable objects of the other kinds
+    for kind in _AS_KINDS + ["selector"]:
+        for pred in _PREDS:
+            for key in ("a", "a.ab", ""):
+                for roe in (True, False):
+                    i += 1
+                    s = _selctx(key, pred, roe, kind)
+                    yield {"op": "select", "spec": s, "roe": True, "top": "filter", "values": _rot(_PVALUES, i)[:_NV]}
+                    if key == "a":
+                        yield {"op": "select", "spec": {"t": "list", "l": [s, _F("false")]}, "roe": not roe, "top": "selector",
+                               "values": _rot(_VALUES, i)[:_NV]}
+    for kind in _AS_KINDS + ["builtin"]:
+        for f in (_FNS if kind != "builtin" else ["b_len"]):
+            if f == "b_len" and kind != "builtin":
+                continue
+            i += 1
+            leaf = dict(_F(f), **{"as": kind})
+            vals = _rot(_VALUES, i)[:_NV]
+            for roe in (True, False):
+                yield {"op": "select", "spec": leaf, "roe": roe, "top": "selector", "values": vals}
+            yield {"op": "select", "spec": leaf, "roe": True, "top": "filter", "values": vals}
+            yield {"op": "select", "spec": {"t": "list", "l": [leaf, _S("a.ab")]}, "roe": i % 2 == 0, "top": "selector", "values": vals}
+            yield {"op": "select", "spec": {"t": "tuple", "l": [_C("int"), leaf], "sub": i % 2 == 1}, "roe": i % 2 == 1,
+                   "top": "selector", "values": vals}
+            if f in ("pos", "inv", "true", "raise_zde", "data", "b_len"):
+                yield {"op": "select", "spec": {"t": "not", "s": leaf, "roe": i % 2 == 0}, "roe": True, "top": "filter", "values": vals}
+                yield {"op": "filterseq", "a": leaf, "b": _C("object"), "values": vals}
+                yield {"op": "runif", "spec": leaf, "seq": "dup", "values": vals}
+
+
 def _gen_select_random(ctx, rng, n):
     for _ in range(n):
         top = "filter" if rng.random() < 0.3 else "selector"
         spec = _rand_selctx(rng) if top == "filter" and rng.random() < 0.15 else _rand_spec(rng, 3)
-        yield {"op": "select", "spec": spec, "roe": rng.random() < 0.5, "top": top, "values": _rand_values(rng, hi=8)}
+        yield {"op": "select", "spec": spec, "roe": rng.random() < 0.5, "top": top,
+               "values": _vals_for(_rand_values(rng, hi=8), spec)}
 
 
 def _gen_filterseq(ctx, rng, n):
@@ -934,7 +1208,8 @@ def _gen_filterseq(ctx, rng, n):
         for b in _LEAVES9 + [_F("raise_stop"), _F("zero")]:
             yield {"op": "filterseq", "a": a, "b": b, "values": _rot(_VALUES, i)[:_NV]}
     for _ in range(n):
-        yield {"op": "filterseq", "a": _rand_spec(rng, 2), "b": _rand_spec(rng, 2), "values": _rand_values(rng, hi=8)}
+        a, b = _rand_spec(rng, 2), _rand_spec(rng, 2)
+        yield {"op": "filterseq", "a": a, "b": b, "values": _vals_for(_rand_values(rng, hi=8), a, b)}
 
 
 def _gen_runif(ctx, rng, n):
@@ -944,7 +1219,8 @@ def _gen_runif(ctx, rng, n):
         for seq in _SEQS:
             yield {"op": "runif", "spec": s, "seq": seq, "values": _rot(_VALUES, i)[:_NV]}
     for _ in range(n):
-        yield {"op": "runif", "spec": _rand_spec(rng, 2), "seq": rng.choice(_SEQS), "values": _rand_values(rng, hi=8)}
+        spec = _rand_spec(rng, 2)
+        yield {"op": "runif", "spec": spec, "seq": rng.choice(_SEQS), "values": _vals_for(_rand_values(rng, hi=8), spec)}
 
 
 def _gen_groupby_exhaustive(ctx, rng):
@@ -1113,6 +1389,7 @@ def gen_cases(ctx):
         _gen_small(ctx),
         _gen_select_special(ctx),
         _gen_select_classes(ctx),
+        _gen_select_callables(ctx),
         _gen_groupby_special(ctx),
         _gen_old(ctx, r[0], 150 if quick else 4000),
         _gen_filterseq(ctx, r[1], 300 if quick else 8000),
@@ -1774,7 +2051,7 @@ def _ref_eval(s, roe, val):
     if t == "cls":
         return isinstance(data, _CLS[s["c"]])
     if t == "fn":
-        return _absorb(roe, lambda: _fn_table()[s["f"]](val))
+        return _absorb(roe, lambda: _fn_obj(s)(val))
     if t == "list":      # OR, short-circuit, left to right
         return _absorb(roe, lambda: any(_ref_eval(x, roe, val) for x in s["l"]))
     if t == "tuple":     # AND
@@ -1798,7 +2075,9 @@ def _ref_eval(s, roe, val):
             if not isinstance(cur, dict) or k not in cur:
                 return False            # the addressed sub-context is absent
             cur = cur[k]
-        return _absorb(s["roe"], lambda: _pred_table()[s["pred"]](cur))
+        # "SelectContext applies its predicate to the addressed sub-context": the predicate - whatever kind of callable
+        # it is - called on the sub-context
+        return _absorb(s["roe"], lambda: _pred_obj(s)(cur))
     raise ValueError(t)
 
 
@@ -1812,6 +2091,16 @@ def _has_bad(s):
     if isinstance(s.get("s"), dict) and _has_bad(s["s"]):
         return True
     return any(_has_bad(x) for x in s.get("l", []))
+
+
+def _has_ambiguous_leaf(s):
+    """a leaf of a Selector that is a callable AND a string / list / tuple: the statement names a meaning for each of
+    the two ("a string tests the context", "a callable is applied") and does not say which one wins - lena applies it
+    (callable is tested first); compared with the model, not demanded.  (As the predicate of a SelectContext such an
+    object is unambiguous: the predicate is applied.)"""
+    if s["t"] == "fn":
+        return s.get("as") in _AS_AMBIGUOUS
+    return any(_has_ambiguous_leaf(x) for x in list(s.get("l", [])) + ([s["s"]] if isinstance(s.get("s"), dict) else []))
 
 
 def _ref_filter_value(spec, v):
@@ -1965,7 +2254,7 @@ def _oracle(case, res):
         spec = case["spec"]
         # the statement covers specifications made of strings, classes, callables, lists, tuples and selectors; what
         # happens with an item of another type (LenaTypeError, documented) is compared in the correspondence only
-        if _has_bad(spec):
+        if _has_bad(spec) or _has_ambiguous_leaf(spec):
             return None
         if "init" in res:
             return (f"construction raised {res['init']} for a specification made of strings, classes, callables, "
@@ -2017,7 +2306,7 @@ def _oracle(case, res):
         return None
     if op in ("filterseq", "runif"):
         specs = [case["a"], case["b"]] if op == "filterseq" else [case["spec"]]
-        if any(_has_bad(s) for s in specs):
+        if any(_has_bad(s) or _has_ambiguous_leaf(s) for s in specs):
             return None
         if "init" in res:
             return f"construction raised {res['init']} for {jdump(specs)}"
@@ -2223,12 +2512,24 @@ def _depth(s):
     return 0
 
 
+def _kinds_of(s):
+    """the kinds of callable objects in a specification (for the input histogram)"""
+    out = set()
+    if s["t"] in ("fn", "selctx"):
+        k = s.get("as")
+        out.add("function" if k is None else ("class" if isinstance(k, dict) else k))
+    for x in list(s.get("l", [])) + ([s["s"]] if isinstance(s.get("s"), dict) else []):
+        out |= _kinds_of(x)
+    return out
+
+
 def classify(case, res):
     if "skipped" in res:
         return [case["op"], case["op"] + ":skipped-private-name-missing"]
     op = case["op"]
     if op == "select":
         labels = [f"select:{case['top']}:depth={_depth(case['spec'])}:roe={case['roe']}", "select:top=" + case["spec"]["t"]]
+        labels += sorted({"select:callable-kind=" + k for k in _kinds_of(case["spec"])})
         if "init" in res:
             labels.append("select:init-error")
         else:
@@ -2344,10 +2645,11 @@ LEVEL_TEXT = ("Lean 4 theorems about a transcribed model of Selector/And/Or/Not/
               "which is the longest-listed-prefix rule when no path is listed twice; the rejected key sets are exactly the "
               "improperly nested ones; a value of the flow is in the same yielded group as another iff their contexts agree on "
               "every selected path; arrival order preserved; fill raises exactly for an unserialisable object at a selected "
-              "path; the data of the values plays no role) and of the deprecated _GroupBy - 33 theorems about the model, 22 auxiliary ones about the specification "
+              "path; the data of the values plays no role) and of the deprecated _GroupBy - 36 theorems about the model, 23 auxiliary ones about the specification "
               "vocabulary - tied to /repo by a correspondence check (exhaustive small scopes, sampled beyond; contexts in "
               "varying insertion orders and dict subclasses, keys that are string prefixes of each other, ten exception "
-              "classes, results that are no bools, 18 classes x 19 kinds of data, subclass instances as specifications, "
+              "classes, results that are no bools, callables of every kind (classes, builtins, bound methods, partial objects, callable "
+              "instances, callable strings / lists / tuples, selectors) as SelectContext predicates and Selector leaves, 18 classes x 19 kinds of data, subclass instances as specifications, "
               "re-used specification objects, shared and mutated context dictionaries, repeated values, data in any order; "
               "the specification-side definitions are executed by the driver and compared too) and a direct reference-evaluator / reference-partition oracle on the real code that states the property "
               "only (documented behaviour outside the statement is compared with the model, not demanded).")
